@@ -23,6 +23,17 @@ pub struct MarkdownEventsReader {
     metadata: Option<String>,
 }
 
+fn unwrap_lines(text: &str) -> String {
+    text.lines()
+        .enumerate()
+        .map(|(n, line)| match n {
+            0 => line,
+            _ => line.trim_start_matches(|c| c == ' ' || c == '\t' || c == '>'),
+        })
+        .collect::<Vec<_>>()
+        .join(" ")
+}
+
 impl MarkdownEventsReader {
     pub fn new() -> MarkdownEventsReader {
         MarkdownEventsReader {
@@ -154,7 +165,10 @@ impl MarkdownEventsReader {
                             _ => line.trim_start_matches(|c| c == ' ' || c == '\t' || c == '>'),
                         })
                         .collect::<Vec<_>>()
-                        .join(" ");
+                        // (a comment may hold any text; the continuation lines of a tag are
+                        // attributes, and a tag kept on one line and alone in its paragraph
+                        // would be an html block, which is dropped)
+                        .join(if text.starts_with("<!--") { " " } else { "\n" });
                     self.push_inline(
                         DocumentInline::Str(text),
                         self.to_line_range(range),
@@ -354,7 +368,12 @@ impl MarkdownEventsReader {
                                 // "[[note\|text]]" in a table cell: the backslash escapes the
                                 // pipe for the table and is no part of the name
                                 LinkType::WikiLink { has_pothole: true } => {
-                                    dest_url.trim_end_matches('\\').to_string()
+                                    unwrap_lines(dest_url.trim_end_matches('\\'))
+                                }
+                                // (a name wrapped over two lines comes with the indentation
+                                // or quote marker of its container: one name, one line)
+                                LinkType::WikiLink { has_pothole: false } => {
+                                    unwrap_lines(&dest_url)
                                 }
                                 _ => dest_url.to_string(),
                             },
